@@ -117,6 +117,35 @@ fn hostile<S: MlDsa>(seed: u64, scale: usize, out: &mut Out) {
             for i in 0..(600 * scale) { let m = (i as u32).to_le_bytes(); t.call("sk._internal_sign", &format!("{} (many messages)", class), inp.clone(), || S::internal_sign(&key, &m, [0u8; 32])); }
         }
     }
+    // challenge hashes chosen by the adversary: c~ is input of Verify, and SampleInBall's rejection loop can be driven through
+    // long runs of rejected index bytes (found with the harness's own sampler among a few million hashes); everything else in
+    // the signature is well-formed, so the verifier does reach SampleInBall and the arithmetic behind it
+    {
+        let nt = std::thread::available_parallelism().map(|x| x.get()).unwrap_or(8).min(12);
+        let found: std::sync::Mutex<Vec<(usize, Vec<u8>)>> = std::sync::Mutex::new(vec![]);
+        let base = p.next();
+        std::thread::scope(|sc| { for th in 0..nt { let found = &found; sc.spawn(move || {
+            let mut best: Vec<(usize, Vec<u8>)> = vec![];
+            let mut i = th;
+            while i < 3_000_000 * scale.min(8) {
+                let mut ct = vec![0xc7u8; S::LAMBDA / 4];
+                ct[..8].copy_from_slice(&base.wrapping_add(i as u64).to_le_bytes());
+                let (_, _, run) = crate::refmath::sample_in_ball_run(S::TAU as usize, &ct);
+                if run >= 8 { best.push((run, ct)); }
+                i += nt;
+            }
+            found.lock().unwrap().extend(best);
+        }); } });
+        let mut f = found.into_inner().unwrap();
+        f.sort_by(|a, b| b.0.cmp(&a.0).then(a.1.cmp(&b.1)));
+        let (pk, _) = S::keygen_seed(&[0x51u8; 32]);
+        for (run, ct) in f.into_iter().take(6) {
+            let mut sig = vec![0u8; S::SIG_LEN];
+            sig[..ct.len()].copy_from_slice(&ct);
+            let s2 = sig.clone();
+            t.call("verify", &format!("well-formed signature whose c~ drives SampleInBall through {} rejections in a row", run), move || json!({"sig": hexs(&s2)}), || S::verify(&pk, b"m", &sig, b"", "pure"));
+        }
+    }
     // arbitrary private-key strings
     for _ in 0..(20 * scale) { let b = p.bytes(S::SK_LEN); let b2 = b.clone(); t.call("sk.try_from_bytes", "random bytes", move || json!({"sk": hexs(&b2)}), || S::sk_from(&b).map(|k| S::sk_bytes(&k)).is_ok()); }
     // key generation and the constant-time test entry point
